@@ -65,16 +65,16 @@ def chan : Drv where
       let prm : ChanParams := { feerate := nat! feerate, dust := nat! dust, funderIsA := funder == "a", ty := t }
       (some (Sys.init (nat! va) (nat! vb), prm), "ok")
     | ["commit", x, adds, fu, fa], some s => ret
-      (match step s (.commit (x == "a") (natsOf adds) (natsOf fu) (natsOf fa)) with
+      (match stepG s (.commit (x == "a") (natsOf adds) (natsOf fu) (natsOf fa)) with
        | none => (some s, "disabled")
        | some s' => (some s', "ok " ++ (match lastCs (if x == "a" then s'.pendA else s'.pendB) with | some c => showBuilt p s'.total (x == "a") c | none => "?")))
     | ["release", x], some s => ret
-      (match step s (.release (x == "a")) with | none => (some s, "disabled") | some s' => (some s', "ok"))
+      (match stepG s (.release (x == "a")) with | none => (some s, "disabled") | some s' => (some s', "ok"))
     | ["raa", x], some s => ret
-      (match step s (.sendRaa (x == "a")) with | none => (some s, "disabled") | some s' => (some s', "ok"))
+      (match stepG s (.sendRaa (x == "a")) with | none => (some s, "disabled") | some s' => (some s', "ok"))
     | ["recv", y], some s => ret <|
       let q := if y == "a" then s.qba else s.qab
-      (match step s (.recv (y == "a")) with
+      (match stepG s (.recv (y == "a")) with
        | none => (some s, "disabled")
        | some s' => (some s', s!"ok {(q.head?.map msgKind).getD "?"} {if s'.agreed then "agree" else "DISAGREE"}"))
     | ["dump", x], some s => ret <|
